@@ -158,3 +158,44 @@ Definition ex_session_check : bool :=
   end.
 Example C03_example_session : ex_session_check = true.
 Proof. vm_compute. reflexivity. Qed.
+
+(* ======================= the code as found (fixed = false) violates the full statement ======================= *)
+(* Design section 7 item 15: the answerer owns a transceiver whose kind the offer does not contain;
+   setLocalDescription(answer) raises ValueError (replayed on the implementation: corpus/C03.jsonl,
+   first case; repaired by the first fix commit). *)
+Definition witness_direction : res exchanged :=
+  match run_session false ex_tables (init_pc 0) (init_pc 0) [StepA (OpAddTrack 0); StepB (OpAddTransceiver 1 SendRecv false)] with
+  | Ok (a, b) => exchange false ex_tables a b
+  | _ => Crash
+  end.
+Theorem C03_exchange_succeeds_refuted_unrepaired : witness_direction = ValueErr.
+Proof. vm_compute. reflexivity. Qed.
+Print Assumptions C03_exchange_succeeds_refuted_unrepaired.
+
+(* Found by this check: a max-bundle answerer that created its video transceiver beforehand and receives
+   the offer [audio, video]: the exchange returns Ok but setRemoteDescription stopped and discarded the
+   only transport the answerer has (second fix commit). *)
+Definition witness_bundle : bool :=
+  match run_session false ex_tables (init_pc 0) (init_pc 2) [StepA (OpAddTrack 0); StepA (OpAddTrack 1); StepB (OpAddTrack 1)] with
+  | Ok (a, b) =>
+      match exchange false ex_tables a b with
+      | Ok x => forallb (fun t => negb (tr_live t)) (p_transports (x_b x)) && negb (Nat.eqb (length (p_trs (x_b x))) 0)
+      | _ => false
+      end
+  | _ => false
+  end.
+Theorem C03_bundle_keeps_transport_refuted_unrepaired : witness_bundle = true.
+Proof. vm_compute. reflexivity. Qed.
+Print Assumptions C03_bundle_keeps_transport_refuted_unrepaired.
+
+(* the same two witnesses on the repaired code *)
+Example C03_witnesses_repaired :
+  (match run_session true ex_tables (init_pc 0) (init_pc 0) [StepA (OpAddTrack 0); StepB (OpAddTransceiver 1 SendRecv false)] with
+   | Ok (a, b) => match exchange true ex_tables a b with Ok _ => true | _ => false end
+   | _ => false end) = true /\
+  (match run_session true ex_tables (init_pc 0) (init_pc 2) [StepA (OpAddTrack 0); StepA (OpAddTrack 1); StepB (OpAddTrack 1)] with
+   | Ok (a, b) => match exchange true ex_tables a b with
+                  | Ok x => forallb tr_live (p_transports (x_b x))
+                  | _ => false end
+   | _ => false end) = true.
+Proof. split; vm_compute; reflexivity. Qed.
